@@ -7,6 +7,7 @@ CONSTANTS
   Kinds <- AllKinds
   Forms <- QuickForms
   Founds <- QuickFounds
+  Faults <- Yes
 INVARIANT TypeOK
 INVARIANT Recoverable
 PROPERTY DeleteGuard
